@@ -107,6 +107,10 @@ pub struct ServerScn {
     /// starts on a channel that may already hold more than L requests.
     #[serde(default)]
     pub pre_read: u8,
+    /// A second, looser limit on the same channel (`limit` stays the effective one): the channel
+    /// is wrapped twice, the looser limit inside (true) or outside (false).
+    #[serde(default)]
+    pub chain: Option<(usize, bool)>,
     /// Clock jumps: at virtual ms `.0` the clock is advanced by `.1` ms at once.
     #[serde(default)]
     pub jumps: Vec<(u64, u64)>,
@@ -186,6 +190,7 @@ fn gen_parked(rng: &mut Rng) -> ServerScn {
         spurious_permille: 0,
         jumps: vec![],
         pre_read: 0,
+        chain: None,
     }
 }
 
@@ -217,6 +222,7 @@ fn gen_flood(rng: &mut Rng) -> ServerScn {
         spurious_permille: 0,
         jumps: vec![],
         pre_read: 0,
+        chain: if rng.chance(250) { Some((limit + rng.range(1, 40) as usize, rng.chance(500))) } else { None },
     }
 }
 
@@ -449,6 +455,10 @@ pub fn gen(rng: &mut Rng, focus: SFocus) -> ServerScn {
             vec![]
         },
         pre_read: 0,
+        chain: match limit {
+            Some(l) if rng.chance(if focus == SFocus::Limit { 200 } else { 60 }) => Some((l + rng.range(1, 3) as usize, rng.chance(500))),
+            _ => None,
+        },
     }
 }
 
@@ -482,6 +492,7 @@ fn gen_overdue_reuse(rng: &mut Rng) -> ServerScn {
         spurious_permille: 0,
         jumps: vec![(3, 12)],
         pre_read: 0,
+        chain: None,
     }
 }
 
@@ -521,6 +532,7 @@ fn gen_mega(rng: &mut Rng) -> ServerScn {
         spurious_permille: 0,
         jumps: vec![],
         pre_read: 0,
+        chain: None,
     }
 }
 
@@ -556,6 +568,7 @@ fn gen_cancel_flood(rng: &mut Rng) -> ServerScn {
         spurious_permille: 0,
         jumps: vec![],
         pre_read: 0,
+        chain: None,
     }
 }
 
@@ -597,6 +610,7 @@ fn gen_limit_backpressure(rng: &mut Rng) -> ServerScn {
         spurious_permille: 0,
         jumps: vec![],
         pre_read: 0,
+        chain: None,
     }
 }
 
@@ -635,6 +649,7 @@ fn gen_prebusy(rng: &mut Rng) -> ServerScn {
         spurious_permille: 0,
         jumps: vec![],
         pre_read: pre as u8,
+        chain: None,
     }
 }
 
@@ -911,6 +926,36 @@ macro_rules! server_task_impl {
 }
 server_task_impl!(server_task, BaseChannel<u64, u64, T>);
 server_task_impl!(server_task_limited, server::limits::requests_per_channel::MaxRequests<BaseChannel<u64, u64, T>>);
+server_task_impl!(
+    server_task_limited_twice,
+    server::limits::requests_per_channel::MaxRequests<server::limits::requests_per_channel::MaxRequests<BaseChannel<u64, u64, T>>>
+);
+
+type TaskFuture = Pin<Box<dyn Future<Output = ()>>>;
+type MonFn = Rc<dyn Fn(bool, bool)>;
+type PlanFn = Rc<dyn Fn(u64) -> HandlerPlan>;
+
+/// Whatever type `chan.max_concurrent_requests(a).max_concurrent_requests(b)` has, run the
+/// application loop over it.
+pub trait RunLimited {
+    fn run_limited(self, sim: Rc<Sim>, node: u8, mon: MonFn, plans: PlanFn, shared: Rc<ServerShared>) -> TaskFuture;
+}
+impl<T> RunLimited for server::limits::requests_per_channel::MaxRequests<BaseChannel<u64, u64, T>>
+where
+    T: tarpc::Transport<Response<u64>, ClientMessage<u64>> + 'static,
+{
+    fn run_limited(self, sim: Rc<Sim>, node: u8, mon: MonFn, plans: PlanFn, shared: Rc<ServerShared>) -> TaskFuture {
+        Box::pin(server_task_limited(sim, node, self, mon, plans, shared))
+    }
+}
+impl<T> RunLimited for server::limits::requests_per_channel::MaxRequests<server::limits::requests_per_channel::MaxRequests<BaseChannel<u64, u64, T>>>
+where
+    T: tarpc::Transport<Response<u64>, ClientMessage<u64>> + 'static,
+{
+    fn run_limited(self, sim: Rc<Sim>, node: u8, mon: MonFn, plans: PlanFn, shared: Rc<ServerShared>) -> TaskFuture {
+        Box::pin(server_task_limited_twice(sim, node, self, mon, plans, shared))
+    }
+}
 
 pub fn start_handler(
     sim: &Rc<Sim>,
@@ -1088,6 +1133,12 @@ pub fn run(scn: &ServerScn, tape: Tape, _logging: bool) -> RunOutput {
                         server_task_limited(sim_s, 0, base.max_concurrent_requests(l), mon_s, plans, shared_s).await;
                         drop(held);
                     })
+                }
+                Some(l) if scn.chain.is_some() => {
+                    let (looser, inside) = scn.chain.unwrap();
+                    sim.count("probe.two_limits_on_one_channel");
+                    let (first, second) = if inside { (looser.max(l), l) } else { (l, looser.max(l)) };
+                    sim.spawn("server", base.max_concurrent_requests(first).max_concurrent_requests(second).run_limited(sim.clone(), 0, mon, plans, shared.clone()))
                 }
                 Some(l) => sim.spawn("server", server_task_limited(sim.clone(), 0, base.max_concurrent_requests(l), mon, plans, shared.clone())),
                 None => sim.spawn("server", server_task(sim.clone(), 0, base, mon, plans, shared.clone())),
